@@ -93,7 +93,7 @@ func vfH_tokenlist_diff() {
 		}
 	} else {
 		// grammar templates: elements joined by OWS "," OWS with symbolic OWS and case
-		nel := 1 + vfChoose(2+tier)
+		nel := 1 + vfChoose(vfParam("NEL", 2+tier))
 		line := ""
 		for i := 0; i < nel; i++ {
 			if i > 0 {
@@ -139,7 +139,7 @@ func vfH_tokenlist_diff() {
 
 // vfOWS: zero or one (thorough: two) optional-whitespace characters, symbolic.
 func vfOWS() string {
-	n := vfChoose(2 + vfParam("tier", 0))
+	n := vfChoose(vfParam("OWS", 2+vfParam("tier", 0)))
 	s := vfString(n)
 	for i := 0; i < n; i++ {
 		vfAssume(vfOr(s[i] == ' ', s[i] == '\t'))
